@@ -1,4 +1,4 @@
-import BridgeVerif.Lemmas.SessionSpec
+import BridgeVerif.Lemmas.SessionC10
 /-!
 # C10 — Each seat is told exactly what the protocol entitles it to, and nothing else
 
@@ -11,7 +11,7 @@ namespace Bridge.C10
 /-- what the seat thread of `p` sends on the connection is the specified stream -/
 theorem s2c_history_is_seat_stream (sc : Scenario) (p : Seat) :
     sendsOn (Chan.s2c p) (sessionProg sc (.seat p)) = seatStream sc p := by
-  sorry
+  exact session_s2c sc p
 
 /-- … in every schedule: in any state where nobody can move any more (and every run reaches one, C09), the
 history of `p`'s connection is the specified stream; and at any earlier moment it is a prefix of it -/
@@ -19,7 +19,7 @@ theorem streams_independent_of_schedule (sc : Scenario) (us : List Tid) (n : Net
     (hr : Run parties (Net.init (sessionProg sc)) us n) (p : Seat) :
     (∃ rest, n.hist (Chan.s2c p) ++ rest = seatStream sc p) ∧
     (Stuck parties n → n.hist (Chan.s2c p) = seatStream sc p) := by
-  sorry
+  exact session_hist_prefix sc us n hr p
 
 /-- a seat is shown its own thirteen cards once per board, straight after the board header, and the only other
 hand it is ever shown is dummy's -/
@@ -28,13 +28,21 @@ theorem own_cards_only (p : Seat) (k : Nat) (last : Bool) (b : BoardSetting) (d 
       (∀ h, SEvent.ownCards h ∉ rest) ∧
       (∀ h, SEvent.dummyCards h ∈ rest →
         ∃ decl, (boardContract b d).declarer = some decl ∧ h = b.deal decl.partner ∧ p ≠ decl.partner) := by
-  sorry
+  obtain ⟨rest, h1, h2, _, h4⟩ := boardEvents_own_cards p k last b d
+  exact ⟨rest, h1, h2, h4⟩
 
 /-- every board starts with the configured number (its position in the list), dealer and vulnerability -/
 theorem board_header_is_configured (p : Seat) (k : Nat) (last : Bool) (b : BoardSetting) (d : Decisions) :
     (boardEvents p k last b d).head? = some (SEvent.header k b.dealer b.vul) ∧
     (∀ n dl v, SEvent.header n dl v ∈ boardEvents p k last b d → n = k ∧ dl = b.dealer ∧ v = b.vul) := by
-  sorry
+  obtain ⟨rest, h1, _, h3, _⟩ := boardEvents_own_cards p k last b d
+  rw [h1]
+  refine ⟨rfl, ?_⟩
+  intro n dl v hm
+  simp only [List.mem_cons, SEvent.header.injEq, reduceCtorEq, false_or] at hm
+  rcases hm with hm | hm
+  · exact hm
+  · exact absurd hm (h3 n dl v)
 
 /-- the relays of the auction on `p`'s connection are exactly the calls of the other three seats, each once, in
 the order they were made -/
@@ -42,7 +50,7 @@ theorem relay_exactly_once_in_order (p dealer : Seat) (calls : List (Call × Tex
     callEvents p dealer 0 calls =
       ((calls.zipIdx).filter fun x => decide (dealer.rot x.2 ≠ p)).map
         fun x => SEvent.relayCall (dealer.rot x.2) (preprocessBid x.1.2) := by
-  sorry
+  exact callEvents_eq_filter p dealer calls 0
 
 /-- the card relays on `p`'s connection are exactly the cards that did not arrive on that connection (declarer
 sends dummy's), each once, in the order played -/
@@ -51,7 +59,7 @@ theorem card_relay_exactly_once_in_order (p decl : Seat) (dh : List Card) (s0 : 
       ((cards.zipIdx).filterMap fun x =>
         let a := (runPlay s0 ((cards.take x.2).map (·.1))).active
         if senderOf decl a = p then none else some (a, x.1.2)) := by
-  sorry
+  exact cardEvents_relays p decl dh s0 0 cards
 
 /-- dummy's cards are shown to the three other seats only: never to dummy, and to each of the others exactly once,
 after the opening lead (after its relay, or for the leader after having been prompted and having sent it) and
@@ -64,7 +72,8 @@ theorem dummy_disclosed_between_lead_and_second_card (p decl : Seat) (dh : List 
       (if p ≠ decl.partner then [SEvent.dummyCards dh] else []) ++
       cardEvents p decl dh (playCard s0 c) 1 rest ∧
     (∀ s (j : Nat) cs h, 0 < j → SEvent.dummyCards h ∉ cardEvents p decl dh s j cs) := by
-  sorry
+  exact ⟨cardEvents_first p decl dh s0 c text rest,
+    fun s j cs h hj => cardEvents_no_dummy_later p decl dh s j cs h hj⟩
 
 /-- a lead prompt goes only to the seat that must lead: the seat on lead, or declarer when dummy is on lead -/
 theorem lead_prompt_only_to_leader (p decl : Seat) (dh : List Card) (s0 : PState) (cards : List (Card × Text)) :
@@ -73,6 +82,6 @@ theorem lead_prompt_only_to_leader (p decl : Seat) (dh : List Card) (s0 : PState
       ((cards.zipIdx).filterMap fun x =>
         let s := runPlay s0 ((cards.take x.2).map (·.1))
         if s.trick = [] ∧ senderOf decl s.active = p then some (s.active, decide (s.active = decl.partner)) else none) := by
-  sorry
+  exact cardEvents_prompts p decl dh s0 0 cards
 
 end Bridge.C10
